@@ -1089,6 +1089,7 @@ stockholm_write(FILE *fp, const ESL_MSA *msa, int64_t cpl)
   char *buf = NULL;
   int  currpos;
   char *s, *tok;
+  int  toklen;
   int  acpl;            /* actual number of character per line */
   int  make_uniquenames = FALSE;  /* TRUE if we force names to be unique */
   int  uniqwidth = 0;
@@ -1220,10 +1221,15 @@ stockholm_write(FILE *fp, const ESL_MSA *msa, int64_t cpl)
       gslen = strlen(msa->gs_tag[i]);
       for (j = 0; j < msa->nseq; j++)
 	if (msa->gs[i][j]) {
-	  s = msa->gs[i][j];
-	  while (esl_strtok(&s, "\n", &tok) == eslOK)
-	    if (make_uniquenames) { if (fprintf(fp, "#=GS %0*d|%-*s %-*s %s\n", uniqwidth-1, i,  maxname, msa->sqname[j], gslen, msa->gs_tag[i], tok) < 0) ESL_XEXCEPTION_SYS(eslEWRITE, "stockholm msa write failed"); }
-	    else                  { if (fprintf(fp, "#=GS %-*s %-*s %s\n",                       maxname, msa->sqname[j], gslen, msa->gs_tag[i], tok) < 0) ESL_XEXCEPTION_SYS(eslEWRITE, "stockholm msa write failed"); }
+	  /* <msa> is const: split at newlines without writing into the annotation (esl_strtok() would truncate it) */
+	  for (s = msa->gs[i][j]; *s != '\0'; s = tok + toklen)
+	    {
+	      tok    = s + strspn(s, "\n");
+	      toklen = (int) strcspn(tok, "\n");
+	      if (toklen == 0) break;
+	      if (make_uniquenames) { if (fprintf(fp, "#=GS %0*d|%-*s %-*s %.*s\n", uniqwidth-1, j,  maxname, msa->sqname[j], gslen, msa->gs_tag[i], toklen, tok) < 0) ESL_XEXCEPTION_SYS(eslEWRITE, "stockholm msa write failed"); }
+	      else                  { if (fprintf(fp, "#=GS %-*s %-*s %.*s\n",                       maxname, msa->sqname[j], gslen, msa->gs_tag[i], toklen, tok) < 0) ESL_XEXCEPTION_SYS(eslEWRITE, "stockholm msa write failed"); }
+	    }
 	}
       if (fprintf(fp, "\n") < 0) ESL_XEXCEPTION_SYS(eslEWRITE, "stockholm msa write failed"); 
     }
